@@ -113,11 +113,16 @@ func (in *Interp) runPath(fn *ssa.Function, argv []Value, p pendingPath) {
 				case budgetErr:
 					status = "budget"
 					in.cs.Inconclusive = append(in.cs.Inconclusive, "budget: "+x.what+" at "+in.errWhere)
-					if x.what == "instruction budget" {
-						// candidate for non-termination: a concrete input of this path is run natively under a
-						// time limit; only a native run that does not finish either is reported (kind "hang")
+					if x.what == "instruction budget" || x.what == "call depth" {
+						// candidate for non-termination / unbounded recursion: a concrete input of this path is run
+						// natively under a time limit; only a native run that does not finish either (time limit, or the
+						// process dies of stack exhaustion) is reported (kind "hang")
 						if m, res := in.pathModel(); res == Sat {
-							in.recordViolation(m, fmt.Sprintf("does not terminate: %d SSA instructions executed on one path without reaching the end of the harness", in.cfg.maxSteps), "hang", in.errWhere, nil)
+							msg := fmt.Sprintf("does not terminate: %d SSA instructions executed on one path without reaching the end of the harness", in.cfg.maxSteps)
+							if x.what == "call depth" {
+								msg = fmt.Sprintf("unbounded recursion: more than %d nested calls on one path", in.cfg.maxDepth)
+							}
+							in.recordViolation(m, msg, "hang", in.errWhere, nil)
 						}
 					}
 				case *goPanic:
